@@ -496,16 +496,22 @@ def _merge_env(a, b):
     return {k: (a[k] if a.get(k) == b.get(k) else "?") for k in set(a) | set(b)}
 
 
+class _Stop(Exception):
+    """the statement list cannot continue (it ended in raise / return / break / continue on this path)"""
+
+
 def _raises_under_flag(stmts, flag: bool, env, exc_name, out):
     """Abstractly run a statement list with the flag fixed: track, for the locals assigned from
     None / the caught exception / a flag-conditional of them, which of the two they hold, and record
     (raise statement, kind of its cause) for every raise reachable under this flag value.
-    Returns the environment after the list."""
+    Returns the environment after the list, or None when no path falls out of its end."""
     for st in stmts:
         if isinstance(st, ast.Raise):
             if st.exc is not None:
                 out.append((st, _cause_kind(st.cause, flag, env, exc_name)))
-            return env
+            return None
+        if isinstance(st, (ast.Return, ast.Break, ast.Continue)):
+            return None
         if isinstance(st, (ast.Assign, ast.AnnAssign)):
             tgts = st.targets if isinstance(st, ast.Assign) else [st.target]
             if st.value is not None:
@@ -520,23 +526,35 @@ def _raises_under_flag(stmts, flag: bool, env, exc_name, out):
             else:
                 e1 = _raises_under_flag(st.body, flag, dict(env), exc_name, out)
                 e2 = _raises_under_flag(st.orelse, flag, dict(env), exc_name, out)
-                env = _merge_env(e1, e2)
+                env = e1 if e2 is None else e2 if e1 is None else _merge_env(e1, e2)
+            if env is None:
+                return None  # neither side of the `if` falls through: what follows is not reached on this path
         elif isinstance(st, (ast.For, ast.While)):
             e1 = _raises_under_flag(st.body, flag, dict(env), exc_name, out)
-            env = _merge_env(env, e1)
-            env = _raises_under_flag(st.orelse, flag, env, exc_name, out)
+            env = _merge_env(env, e1) if e1 is not None else env
+            e2 = _raises_under_flag(st.orelse, flag, env, exc_name, out)
+            env = e2 if e2 is not None else env
         elif isinstance(st, ast.With):
             env = _raises_under_flag(st.body, flag, env, exc_name, out)
+            if env is None:
+                return None
         elif isinstance(st, ast.Try):
             e1 = _raises_under_flag(st.body, flag, dict(env), exc_name, out)
-            mid = _merge_env(env, e1)
-            ends = [_raises_under_flag(st.orelse, flag, dict(e1), exc_name, out)]
+            mid = _merge_env(env, e1) if e1 is not None else env
+            ends = [_raises_under_flag(st.orelse, flag, dict(e1), exc_name, out) if e1 is not None else None]
             for hh in st.handlers:
                 ends.append(_raises_under_flag(hh.body, flag, dict(mid), exc_name, out))
-            env = ends[0]
-            for e2 in ends[1:]:
+            live = [e_ for e_ in ends if e_ is not None]
+            if not live:
+                _raises_under_flag(st.finalbody, flag, dict(mid), exc_name, out)
+                return None
+            env = live[0]
+            for e2 in live[1:]:
                 env = _merge_env(env, e2)
-            env = _raises_under_flag(st.finalbody, flag, env, exc_name, out)
+            e3 = _raises_under_flag(st.finalbody, flag, env, exc_name, out)
+            if e3 is None:
+                return None
+            env = e3
     return env
 
 
